@@ -1154,7 +1154,8 @@ class NestedPipeFunc(PipeFunc):
         parameters = set(self._all_inputs) - set(self._all_outputs)
         return {
             k: inspect.Parameter(
-                k,
+                # `inspect.Parameter` only accepts identifiers, a scoped name ("scope.name") is not one
+                k.replace(".", "_"),
                 inspect.Parameter.KEYWORD_ONLY,
                 # TODO: Do we need defaults here?
                 # default=...,  # noqa: ERA001
